@@ -32,6 +32,9 @@ def gen_config(rnd, tier, directed=None):
         "data_encoding": rnd.choice(["raw", "gzip"]),
         "data_type": rnd.choice(["uint8", "uint8", "uint16", "uint32"]),
         "num_channels": rnd.choice([1, 1, 2]),
+        # the two encoding members are optional in the specification (default "raw"):
+        # hand-written and third-party infos leave them out
+        "omit_default_keys": rnd.random() < 0.3,
     }
 
 
@@ -79,11 +82,16 @@ def sizes_of(cfg):
 
 
 def sharding_of(cfg):
-    return {"@type": "neuroglancer_uint64_sharded_v1", "hash": "identity",
-            "minishard_bits": cfg["minishard_bits"], "shard_bits": cfg["shard_bits"],
-            "preshift_bits": cfg["preshift_bits"],
-            "minishard_index_encoding": cfg["minishard_index_encoding"],
-            "data_encoding": cfg["data_encoding"]}
+    out = {"@type": "neuroglancer_uint64_sharded_v1", "hash": "identity",
+           "minishard_bits": cfg["minishard_bits"], "shard_bits": cfg["shard_bits"],
+           "preshift_bits": cfg["preshift_bits"],
+           "minishard_index_encoding": cfg["minishard_index_encoding"],
+           "data_encoding": cfg["data_encoding"]}
+    if cfg.get("omit_default_keys"):
+        for k in ("minishard_index_encoding", "data_encoding"):
+            if out[k] == "raw":
+                del out[k]
+    return out
 
 
 def info_of(cfg, key="s0", sharded=True, encoding="raw"):
